@@ -15,8 +15,14 @@ Tie     : extracted facts (tools/extractors/wire.py) + differential corresponden
             http.client request writer over an in-memory socket (harness/wirepeer.RecConn, returned by an overridden
             make_connection of the real Transport / SafeTransport / UnixTransport) and (b) for a sample, as bytes read
             by a raw recording socket peer (TCP for http, a Unix socket for unix+http with the real UnixTransport),
-          * scheme checks of ServerProxy.
-Monitor : the property statement on the captured bytes / texts.
+          * scheme checks of ServerProxy,
+          * SEQUENCES of responses through ONE transport object (harness/wiresessions.py, model JRV.Model.WireSession, component
+            `wsession`): parse_response of one real Transport / SafeTransport / UnixTransport called for 2..6 responses of which
+            some fail part-way (a read raising after 0, 1 or several chunks: reset, time-out, IncompleteRead, truncated gzip) and
+            the others are healthy; and a real ServerProxy over scripted in-memory http.client connections (kept-alive, the
+            library's own retry after a reset) whose replies break in the middle of the body before healthy ones.
+Monitor : the property statement on the captured bytes / texts; for a sequence: the text returned for a response is the
+          decoding of the bytes of THAT response, whatever came through the same transport before.
 
 What "path plus query string unchanged" means here: the URL is built by the generator as
 scheme://netloc + path + ["?" + query], so the monitor knows path and query by construction (it does not ask
@@ -40,6 +46,7 @@ import core
 import impl
 import pyval
 import wirepeer
+import wiresessions
 
 REQUIRED_THEOREMS = [
     "C17_content_length", "C17_do_post_framing", "C17_cgi_length", "C17_cgi_single_byte", "C17_body_bytes",
@@ -49,6 +56,8 @@ REQUIRED_THEOREMS = [
     "C17_gen_lenAfterToBytes", "C17_gen_serverDecodesAfterJoin", "C17_gen_clientDecodesAfterJoin", "C17_gen_maxChunk",
     "C17_gen_contentTypeFromConfig", "C17_gen_schemes", "C17_gen_handlerFromUrl", "C17_gen_targetForwarded",
     "C17_gen_fromBytesCodec", "C17_gen_toBytesCodec",
+    "C17_session_independent", "C17_session_reassembly", "C17_session_error_reported", "C17_reused_parser_not_independent",
+    "C17_gen_getparserFresh", "C17_gen_targetOwnBuffer", "C17_gen_session_independent",
 ]
 
 MAXCHUNK = 10 * 1024 * 1024
@@ -537,7 +546,11 @@ def _run(ctx, env):
                 "CR LF (class:text/…) through every reassembly path; bodies as bytes (harness/bytecases.py: BOM prefixes UTF-8/16/32, UTF-16/32 "
                 "without mark, invalid / overlong / truncated UTF-8, surrogates in UTF-8, NUL, latin-1; class:bytes/<variant>) through do_POST "
                 "with an echoing dispatcher and through JSONTarget / parse_response: what is handed on is the strict UTF-8 decoding of the "
-                "bytes read, all of it, and bytes without decoding are never handed on")
+                "bytes read, all of it, and bytes without decoding are never handed on; sequences of 2..6 responses through ONE real "
+                "transport object (class:session/…): healthy ones (identity / gzip, any chunking) after and between responses whose read "
+                "raises part-way (ConnectionResetError, BrokenPipeError, timeout, IncompleteRead, OSError, truncated gzip; 0 / 1 / 2+ chunks "
+                "fed before), via parse_response and via a real ServerProxy over scripted in-memory connections (bad chunk header, reset "
+                "with the library's retry, time-out, truncated gzip after >= 1024 body bytes)")
     lines, impl_out = [], []
 
     def boundary_inside_char(chunks):
@@ -842,6 +855,9 @@ def _run(ctx, env):
         ctx.count(kind="server/big-body", nontrivial_key=("big",))
         del big, bb, got
 
+    # ---- sequences of responses through one transport object (a response that fails part-way, then healthy ones)
+    wiresessions.run_sessions(ctx, env, cfgs, lines, impl_out)
+
     # ---- request targets and schemes
     targets(ctx, env, cfgs, lines, impl_out)
 
@@ -1025,6 +1041,9 @@ def replay(payload):
         print("not reproduced on this tree")
         return 0
 
+    if via.startswith("session/"):
+        problems = wiresessions.replay_session(J, cfg, case)
+        return verdict("; ".join(problems) if problems else None)
     if via == "do_POST" and "reads" in case:
         body = bytes.fromhex(case["body_hex"])
         status, got, hl, wr = drive_do_post(body, case["reads"], cfg)
